@@ -191,20 +191,19 @@ package keeper
 // Callability (DESIGN.md §7 C17: callable(evm, a) := a is a key of the map and the object there is not disabled), for a
 // registry whose records carry pairwise distinct 20-byte addresses (the registry invariant: a record is stored under the key
 // of its own address, SetCustomPrecompiledContractMeta C17.record_stored): a record marked DISABLED is not callable.
-// This clause FAILS on this tree (finding F7, docs/findings-cpc2.md: the stored flag is never passed to the fork's
-// WithDisabled; replayed) and is kept as it is. That an ENABLED record's object is not disabled is the call-site clause
-// C17.wired_objects_enabled below (every object handed to WithCustomPrecompiledContracts is enabled) together with the
-// fork's C17.exposed_object (which object answers at an address).
+// (Finding F7, docs/findings-cpc2.md: the stored flag was never passed to the fork's WithDisabled; repaired by the "fix:"
+// commit that wires metadata.Disabled.) That every wired object carries the flag of ITS record is the call-site clause
+// C17.wired_objects_flag below, combined with the fork's C17.exposed_object (which object answers at an address).
 //@   ensures[C17.disabled_not_callable] ((forall w int :: (0 <= w && w < kvSeqLen(kvHas[kvId(layer(ctx), payload(k.cpcKeeper.storeKey))], b1(2))) ==> blen(pbMetaAddr(kvVal[kvId(layer(ctx), payload(k.cpcKeeper.storeKey))][kvSeqKey(kvHas[kvId(layer(ctx), payload(k.cpcKeeper.storeKey))], b1(2), w)])) == 20) && (forall a int, b int :: (0 <= a && a < b && b < kvSeqLen(kvHas[kvId(layer(ctx), payload(k.cpcKeeper.storeKey))], b1(2))) ==> bytesAddr(pbMetaAddr(kvVal[kvId(layer(ctx), payload(k.cpcKeeper.storeKey))][kvSeqKey(kvHas[kvId(layer(ctx), payload(k.cpcKeeper.storeKey))], b1(2), a)])) != bytesAddr(pbMetaAddr(kvVal[kvId(layer(ctx), payload(k.cpcKeeper.storeKey))][kvSeqKey(kvHas[kvId(layer(ctx), payload(k.cpcKeeper.storeKey))], b1(2), b)])))) ==> (forall i int :: (0 <= i && i < kvSeqLen(kvHas[kvId(layer(ctx), payload(k.cpcKeeper.storeKey))], b1(2)) && pbMetaDisabled(kvVal[kvId(layer(ctx), payload(k.cpcKeeper.storeKey))][kvSeqKey(kvHas[kvId(layer(ctx), payload(k.cpcKeeper.storeKey))], b1(2), i)])) ==> !((bytesAddr(pbMetaAddr(kvVal[kvId(layer(ctx), payload(k.cpcKeeper.storeKey))][kvSeqKey(kvHas[kvId(layer(ctx), payload(k.cpcKeeper.storeKey))], b1(2), i)])) in result.customPrecompiledContracts) && typeof(result.customPrecompiledContracts[bytesAddr(pbMetaAddr(kvVal[kvId(layer(ctx), payload(k.cpcKeeper.storeKey))][kvSeqKey(kvHas[kvId(layer(ctx), payload(k.cpcKeeper.storeKey))], b1(2), i)]))]) == type(*corevm.CustomPrecompiledContract) && unbox(result.customPrecompiledContracts[bytesAddr(pbMetaAddr(kvVal[kvId(layer(ctx), payload(k.cpcKeeper.storeKey))][kvSeqKey(kvHas[kvId(layer(ctx), payload(k.cpcKeeper.storeKey))], b1(2), i)]))], type(*corevm.CustomPrecompiledContract)) != nil && !unbox(result.customPrecompiledContracts[bytesAddr(pbMetaAddr(kvVal[kvId(layer(ctx), payload(k.cpcKeeper.storeKey))][kvSeqKey(kvHas[kvId(layer(ctx), payload(k.cpcKeeper.storeKey))], b1(2), i)]))], type(*corevm.CustomPrecompiledContract)).disabled))
-//@   at call *vm.EVM.WithCustomPrecompiledContracts@1 assert [C17.wired_objects_enabled] forall j int :: (0 <= j && j < len(contracts)) ==> (typeof(contracts[j]) == type(*corevm.CustomPrecompiledContract) && unbox(contracts[j], type(*corevm.CustomPrecompiledContract)) != nil && !unbox(contracts[j], type(*corevm.CustomPrecompiledContract)).disabled)
+//@   at call *vm.EVM.WithCustomPrecompiledContracts@1 assert [C17.wired_objects_flag] forall j int :: (0 <= j && j < len(contracts)) ==> (typeof(contracts[j]) == type(*corevm.CustomPrecompiledContract) && unbox(contracts[j], type(*corevm.CustomPrecompiledContract)) != nil && unbox(contracts[j], type(*corevm.CustomPrecompiledContract)).disabled == pbMetaDisabled(kvVal[kvId(layer(ctx), payload(k.cpcKeeper.storeKey))][kvSeqKey(kvHas[kvId(layer(ctx), payload(k.cpcKeeper.storeKey))], b1(2), j)]))
 //@   at call *vm.EVM.WithCustomPrecompiledContracts@1 assert [C17.wired_in_registry_order] len(contracts) == kvSeqLen(kvHas[kvId(layer(ctx), payload(k.cpcKeeper.storeKey))], b1(2)) && ((forall w int :: (0 <= w && w < kvSeqLen(kvHas[kvId(layer(ctx), payload(k.cpcKeeper.storeKey))], b1(2))) ==> blen(pbMetaAddr(kvVal[kvId(layer(ctx), payload(k.cpcKeeper.storeKey))][kvSeqKey(kvHas[kvId(layer(ctx), payload(k.cpcKeeper.storeKey))], b1(2), w)])) == 20) ==> (forall j int :: (0 <= j && j < len(contracts)) ==> unbox(contracts[j], type(*corevm.CustomPrecompiledContract)).address == bytesAddr(pbMetaAddr(kvVal[kvId(layer(ctx), payload(k.cpcKeeper.storeKey))][kvSeqKey(kvHas[kvId(layer(ctx), payload(k.cpcKeeper.storeKey))], b1(2), j)]))))
 //@   panics any
 //@ loop 1
 //@   fresh_writes
 //@   invariant -1 <= rangeindex && rangeindex < kvSeqLen(kvHas[kvId(layer(ctx), payload(k.cpcKeeper.storeKey))], b1(2)) && len(contracts) == rangeindex + 1 && (cap(contracts) == 0 || fresh(base(contracts)))
 //@   invariant forall j int :: (0 <= j && j <= rangeindex) ==> typeof(contracts[j]) == type(*corevm.CustomPrecompiledContract)
-//@   invariant forall j int :: (0 <= j && j <= rangeindex) ==> unbox(contracts[j], type(*corevm.CustomPrecompiledContract)) != nil
-//@   invariant forall j int :: (0 <= j && j <= rangeindex) ==> !unbox(contracts[j], type(*corevm.CustomPrecompiledContract)).disabled
+//@   invariant forall j int :: (0 <= j && j <= rangeindex) ==> allocated(unbox(contracts[j], type(*corevm.CustomPrecompiledContract)))
+//@   invariant forall j int :: (0 <= j && j <= rangeindex) ==> unbox(contracts[j], type(*corevm.CustomPrecompiledContract)).disabled == pbMetaDisabled(kvVal[kvId(layer(ctx), payload(k.cpcKeeper.storeKey))][kvSeqKey(kvHas[kvId(layer(ctx), payload(k.cpcKeeper.storeKey))], b1(2), j)])
 //@   invariant (forall w int :: (0 <= w && w < kvSeqLen(kvHas[kvId(layer(ctx), payload(k.cpcKeeper.storeKey))], b1(2))) ==> blen(pbMetaAddr(kvVal[kvId(layer(ctx), payload(k.cpcKeeper.storeKey))][kvSeqKey(kvHas[kvId(layer(ctx), payload(k.cpcKeeper.storeKey))], b1(2), w)])) == 20) ==> (forall j int :: (0 <= j && j <= rangeindex) ==> unbox(contracts[j], type(*corevm.CustomPrecompiledContract)).address == bytesAddr(pbMetaAddr(kvVal[kvId(layer(ctx), payload(k.cpcKeeper.storeKey))][kvSeqKey(kvHas[kvId(layer(ctx), payload(k.cpcKeeper.storeKey))], b1(2), j)])))
 //@ loop 2
 //@   fresh_writes
